@@ -93,6 +93,7 @@ func noTouchingSameText(l lm.List) bool {
 
 func c11Run(c *core.Ctx) {
 	longRun(c, "unfragment")
+	againRun(c, "unfragment")
 	type scope struct {
 		grid  int64
 		max   int
